@@ -20,7 +20,8 @@ def Pat.Sets (p : Pat) (i : Nat) : Bool := setsGroup i p.re && decide (i ≤ p.n
 /-- `m` is a match of `p` -/
 def Match.Of (m : Match) (p : Pat) : Prop :=
   m.ngroups = p.ngroups ∧
-    Matches m.inp p.re 0 m.res.start (List.replicate (p.ngroups + 1) none) m.res.stop m.res.caps
+    Matches m.inp p.re 0 m.res.start (List.replicate (p.ngroups + 1) none) m.res.stop m.res.caps ∧
+    m.res.start ≤ m.inp.size
 
 theorem Match.str_of_group {m : Match} {i : Nat} {g : Str} (site : String) (s : Session)
     (hi : i ≤ m.ngroups) (hg : m.res.group m.inp i = some g) : (m.str i site).run s = .ok (g, s) := by
@@ -36,22 +37,25 @@ theorem Match.Of.str {m : Match} {p : Pat} {i : Nat} (h : m.Of p) (hp : p.Sets i
     ∃ g, (m.str i site).run s = .ok (g, s) := by
   unfold Pat.Sets at hp
   simp only [Bool.and_eq_true, decide_eq_true_eq] at hp
-  obtain ⟨hn, hM⟩ := h
+  obtain ⟨hn, hM, _⟩ := h
   obtain ⟨g, hg⟩ := group_of_isSet (inp := m.inp) (hM.setsGroup (by rw [setsGroupAt_zero]; exact hp.1) (by simp; omega))
   exact ⟨g, Match.str_of_group site s (by omega) hg⟩
 
 theorem Pat.search_of {p : Pat} {text : Str} {start : Nat} {m : Match} (hs : start ≤ text.length)
     (h : p.search text start = some m) : m.Of p := by
-  obtain ⟨_, hn, hr⟩ := Pat.search_some h
-  obtain ⟨_, _, _, hM⟩ := search_sound (by simpa using hs) hr
-  exact ⟨hn, by simpa [*] using hM⟩
+  obtain ⟨hinp, hn, hr⟩ := Pat.search_some h
+  obtain ⟨_, h2, h3, hM⟩ := search_sound (by simpa using hs) hr
+  refine ⟨hn, by simpa [*] using hM, ?_⟩
+  rw [hinp]
+  omega
 
 theorem Pat.matchStart_of {p : Pat} {text : Str} {m : Match} (h : p.matchStart text = some m) : m.Of p := by
   obtain ⟨hinp, hn, hr⟩ := Pat.matchStart_some h
   obtain ⟨hst, hM⟩ := matchAt_sound hr
-  refine ⟨hn, ?_⟩
-  rw [hinp, hst]
-  exact hM
+  refine ⟨hn, ?_, ?_⟩
+  · rw [hinp, hst]
+    exact hM
+  · rw [hst]; exact Nat.zero_le _
 
 theorem Pat.findAll_go_of (p : Pat) (inp : Array Char) :
     ∀ fuel pos, ∀ m ∈ Pat.findAll.go p inp fuel pos, m.Of p := by
@@ -68,8 +72,8 @@ theorem Pat.findAll_go_of (p : Pat) (inp : Array Char) :
       · simp at hm
       · next r hr =>
         have hof : ({ inp := inp, res := r, ngroups := p.ngroups } : Match).Of p := by
-          obtain ⟨_, _, _, hM⟩ := search_sound (by omega) hr
-          exact ⟨rfl, hM⟩
+          obtain ⟨_, h2, h3, hM⟩ := search_sound (by omega) hr
+          exact ⟨rfl, hM, by show r.start ≤ inp.size; omega⟩
         simp only at hm
         split at hm
         · rcases List.mem_cons.mp hm with h | h
